@@ -1,7 +1,92 @@
 import ScVerif.Base.Line
-/-! Driver handler for C15 (stub: replaced by the property's owner). -/
-namespace ScVerif.C15
+import ScVerif.C15.Paging
+/-! Driver handler for C15: the state is the current listing (set by a `keys` line).
 
-def handle (_toks : List String) : String := "!bad-op"
+```
+keys <hex,hex,…|->                 → ok <n>
+page <gt|ge> <size> <E|B|K<hex>>   → ok <hex,…|-> <N|T<hex>> <total> | err <Code> | panic
+waste <n> <size> <E|B|I<int>>      → ok <i,…|-> <N|T<int>> <total>   | err <Code> | panic
+```
+Keys travel as the hex of their UTF-8 bytes. -/
+namespace ScVerif.C15
+open ScVerif.Line
+
+def hexVal? (c : Char) : Option Nat :=
+  if '0' ≤ c ∧ c ≤ '9' then some (c.toNat - '0'.toNat)
+  else if 'a' ≤ c ∧ c ≤ 'f' then some (c.toNat - 'a'.toNat + 10)
+  else none
+
+def hexBytes? : List Char → Option (List UInt8)
+  | [] => some []
+  | [_] => none
+  | a :: b :: rest => do
+    let x ← hexVal? a
+    let y ← hexVal? b
+    let r ← hexBytes? rest
+    pure (UInt8.ofNat (x * 16 + y) :: r)
+
+def unhex? (s : String) : Option String := do
+  let bs ← hexBytes? s.toList
+  String.fromUTF8? (ByteArray.mk bs.toArray)
+
+def hexDigit (n : Nat) : Char := if n < 10 then Char.ofNat (n + 48) else Char.ofNat (n + 87)
+
+def hex (s : String) : String :=
+  String.ofList (s.toUTF8.toList.flatMap fun b => [hexDigit (b.toNat / 16), hexDigit (b.toNat % 16)])
+
+def parseKeys? (s : String) : Option (List String) :=
+  if s = "-" then some [] else (s.splitOn ",").mapM unhex?
+
+def showKeys (ks : List String) : String :=
+  if ks.isEmpty then "-" else ",".intercalate (ks.map hex)
+
+def parseTok? (s : String) : Option Tok :=
+  if s = "E" then some .empty
+  else if s = "B" then some .bad
+  else if s.startsWith "K" then (unhex? (s.drop 1).toString).map .key
+  else none
+
+def parseWTok? (s : String) : Option WTok :=
+  if s = "E" then some .empty
+  else if s = "B" then some .bad
+  else if s.startsWith "I" then (parseInt? (s.drop 1).toString).map .idx
+  else none
+
+def parseVariant? (s : String) : Option Variant :=
+  if s = "gt" then some .gt else if s = "ge" then some .ge else none
+
+def showPage : Out Page → String
+  | .ok p => s!"ok {showKeys p.items} {match p.next with | none => "N" | some k => "T" ++ hex k} {p.total}"
+  | .err c => "err " ++ c.name
+  | .panic => "panic"
+
+def showWPage : Out WPage → String
+  | .ok p =>
+    let items := if p.items.isEmpty then "-" else ",".intercalate (p.items.map toString)
+    s!"ok {items} {match p.next with | none => "N" | some k => "T" ++ toString k} {p.total}"
+  | .err c => "err " ++ c.name
+  | .panic => "panic"
+
+def step (keys : List String) (toks : List String) : Option (List String × String) :=
+  match toks with
+  | ["keys", ks] => do
+    let l ← parseKeys? ks
+    pure (l, s!"ok {l.length}")
+  | ["page", v, size, tok] => do
+    let v ← parseVariant? v
+    let size ← parseInt? size
+    let tok ← parseTok? tok
+    pure (keys, showPage (listPage v keys tok size))
+  | ["waste", n, size, tok] => do
+    let n ← parseNat? n
+    let size ← parseInt? size
+    let tok ← parseWTok? tok
+    pure (keys, showWPage (listWaste n tok size))
+  | _ => none
+
+def handleS (keys : List String) (toks : List String) : List String × String :=
+  match step keys toks with
+  | some r => r
+  | none => (keys, "!bad-op")
 
 end ScVerif.C15
